@@ -119,13 +119,14 @@ CLAIMS["C01"] = dict(
 )
 CLAIMS["C16"] = dict(
     category="model_checking",
-    technique="TLA+ specs DtlsListener.tla, SctpStream.tla, SctpWrite.tla, HbWatchdog.tla: TLC exhaustive + replay of every read-path / write-path behaviour into the real hbConn/SCTPConn with a scripted msgStream + real loopback listener scenarios + trace validation",
+    technique="TLA+ specs DtlsListener.tla, SctpStream.tla, SctpWrite.tla, HbWatchdog.tla, DtlsSetup.tla: TLC exhaustive + replay of every read-path / write-path behaviour into the real hbConn/SCTPConn with a scripted msgStream + real loopback listener scenarios + trace validation",
     text="DtlsListener.tla (acceptors registering cert+channel with deferred removals, handshakes, cancellation at any pc; 2.4 M states) checks "
          "NoCrossDelivery, OnlyMatchingCompletes, NothingLeftRegistered, DuplicateSecretDoesNotDisturbFirst; SctpStream.tla checks StreamFidelity, "
          "HeartbeatsNeverSurface, ErrorAfterItsData, NoSpuriousError; SctpWrite.tla BufferedBounded; HbWatchdog.tla DeadPeerCloses (8 broken "
          "instances violate). About 184 k read-path behaviours (TLC-exhaustive at maxMessageSize 3, simulated at 5 and 8) and 20 k write-path "
          "behaviours are replayed on the real code with the same constants; 911 real-time watchdog runs; 96 listener scenarios from TLC run on "
-         "real loopback DTLS listeners (incl. forged dialers, duplicates, cancellations) with event traces validated by Trace_DtlsListener; "
+         "real loopback DTLS listeners (incl. forged dialers, duplicates, cancellations) with event traces validated by Trace_DtlsListener; DtlsSetup.tla "
+         "(set-up deadline per layer, SetupDeadlineEndsWithSetup, EstablishedOutlivesContext) with its 21 rows run on the real client / server / accept set-up calls; "
          "certificates derived twice for sampled secrets.",
     note="Handshake internals are not scheduled (only call order is imposed); the scripted msgStream follows the pion/sctp contract; certificate "
          "laws are sampled; slow-reader path and Read after local Close are not modelled.",
